@@ -1,9 +1,77 @@
 import GnpyDriver.JsonUtil
 import GnpyModel
-/- driver handlers for property C08 (ops are named "c08.<name>") -/
+/- driver handlers for property C08 (ops are named "c08.<name>"); the JSON codec of chain elements defined here is
+   reused by C09 and C17 -/
 open Lean
 namespace Gnpy.Drv.C08
+open Gnpy.Chain
 
-def handlers : List (String × Handler) := []
+def getElem (j : Json) : R (Elem Float) := do
+  let kind ← fStr j "kind"
+  let uid ← fStr j "uid"
+  match kind with
+  | "fiber" =>
+    return .fiber uid { length := ← fF j "length", lossCoef := ← fF j "loss_coef", conIn := ← fOpt getF j "con_in",
+                        conOut := ← fOpt getF j "con_out", attIn := ← fF j "att_in", lumped := ← fF j "lumped",
+                        raman := ← fBool j "raman", ramanGain := ← fOpt getF j "raman_gain", dsl := ← fOpt getF j "dsl" }
+  | "fused" => return .fused uid (← fF j "loss")
+  | "edfa" =>
+    return .edfa uid { variety := ← fStr j "variety", gain := ← fOpt getF j "gain", deltaP := ← fOpt getF j "delta_p",
+                       outVoa := ← fOpt getF j "out_voa", inVoa := ← fOpt getF j "in_voa", tilt := ← fOpt getF j "tilt" }
+  | k => throw s!"unknown element kind {k}"
+
+def jElem : Elem Float → Json
+  | .fiber u p => jObj [("kind", jStr "fiber"), ("uid", jStr u), ("length", jF p.length), ("loss_coef", jF p.lossCoef),
+                        ("con_in", jOpt jF p.conIn), ("con_out", jOpt jF p.conOut), ("att_in", jF p.attIn),
+                        ("lumped", jF p.lumped), ("raman", jBool p.raman), ("raman_gain", jOpt jF p.ramanGain),
+                        ("dsl", jOpt jF p.dsl), ("loss", jF p.loss)]
+  | .fused u l => jObj [("kind", jStr "fused"), ("uid", jStr u), ("loss", jF l)]
+  | .edfa u p => jObj [("kind", jStr "edfa"), ("uid", jStr u), ("variety", jStr p.variety), ("gain", jOpt jF p.gain),
+                       ("delta_p", jOpt jF p.deltaP), ("out_voa", jOpt jF p.outVoa), ("in_voa", jOpt jF p.inVoa),
+                       ("tilt", jOpt jF p.tilt)]
+
+def getKind (j : Json) (k : String) : R EndKind := do
+  match ← fStr j k with
+  | "roadm" => return .roadm
+  | "trx" => return .trx
+  | s => throw s!"endpoint kind {s}"
+
+def getChain (j : Json) : R (Chain Float) := do
+  return { src := ← fStr j "src", srcKind := ← getKind j "src_kind", line := ← fList getElem j "line",
+           dst := ← fStr j "dst", dstKind := ← getKind j "dst_kind" }
+
+def getSplit (j : Json) : R (SplitCfg Float) := do
+  return { fuel := 100000, lo := ← fF j "lo", hi := ← fF j "hi", target := ← fF j "target" }
+
+/-- calculate_new_length: (length, n) or the error kind; also the class-D margin of `//` -/
+def calcH (j : Json) : R Json := do
+  let L ← fF j "L"
+  let c ← getSplit j
+  if calcRaises c.fuel L c.hi c.target then return jObj [("error", jStr "ZeroDivisionError")]
+  let r := calcNewLength c.fuel L c.lo c.hi c.target
+  let q := L / c.target
+  let margin := Float.abs (q - q.round)
+  return jObj [("length", jF r.1), ("n", jNat r.2), ("margin", jF margin), ("target", jF (targetLength c.lo c.hi))]
+
+/-- add_missing_elements_in_network + add_missing_fiber_attributes on one chain -/
+def design (j : Json) : R Json := do
+  let ch ← getChain (← fld j "chain")
+  let c ← getSplit j
+  -- malformed chains
+  if !(← fBool j "connected") then return jObj [("error", jStr "NetworkTopologyError")]
+  let raisesSplit := ch.line.any (fun e => match e with
+    | .fiber _ p => calcRaises c.fuel p.length c.hi c.target
+    | _ => false)
+  if raisesSplit then return jObj [("error", jStr "ZeroDivisionError")]
+  let missing := addMissingLine c ch
+  let withConn := addConn (← fF j "con_in") (← fF j "con_out") (← fF j "eol") missing
+  let rs := runs withConn
+  if rs.any padRaises then
+    return jObj [("error", jStr "TypeError"), ("missing", jList jElem missing)]
+  let padded := addPadding (← fF j "padding") withConn
+  return jObj [("missing", jList jElem missing), ("line", jList jElem padded),
+               ("runs", jList (fun r => jList (fun e => jStr e.uid) r) (runs padded))]
+
+def handlers : List (String × Handler) := [("c08.calc", calcH), ("c08.design", design)]
 
 end Gnpy.Drv.C08
